@@ -108,8 +108,33 @@ func c07(args []string) {
 			t.next() // CAP
 			max := atou(t.next())
 			g, p, h, m = newCtr(), newCtr(), newCtr(), newCtr()
-			cache = updog.NewLRUCache(max, updog.WithCacheMetrics(&updog.CacheMetrics{
-				CacheHit: h, CacheMiss: m, GetCall: g, PutCall: p}))
+			metrics := &updog.CacheMetrics{CacheHit: h, CacheMiss: m, GetCall: g, PutCall: p}
+			if t.more() && t.next() == "MASK" {
+				// only some of the four counters are configured (bits: 1 hit, 2 miss, 4 get, 8 put);
+				// MASK -1: no metrics option at all
+				mask := t.int()
+				metrics = &updog.CacheMetrics{}
+				if mask >= 0 {
+					if mask&1 != 0 {
+						metrics.CacheHit = h
+					}
+					if mask&2 != 0 {
+						metrics.CacheMiss = m
+					}
+					if mask&4 != 0 {
+						metrics.GetCall = g
+					}
+					if mask&8 != 0 {
+						metrics.PutCall = p
+					}
+					cache = updog.NewLRUCache(max, updog.WithCacheMetrics(metrics))
+				} else {
+					cache = updog.NewLRUCache(max)
+				}
+				pr("CASE %s\n", id)
+				continue
+			}
+			cache = updog.NewLRUCache(max, updog.WithCacheMetrics(metrics))
 			pr("CASE %s\n", id)
 		case "P":
 			key, nelems, bmid := atou(t.next()), t.int(), t.int()
